@@ -256,7 +256,7 @@ func runC19(c *Ctx) {
 				}
 			}
 		}
-		c.check(len(bad) == 0 && n >= 2, "limits-as-configured", "regulator limits", "-", "max per table and min initial are stored as configured", "the limits in force are not the configured ones", uniq(bad, 2)...)
+		c.check(len(bad) == 0, "limits-as-configured", "regulator limits", "-", fmt.Sprintf("max per table and min initial are stored as configured (%d direct writer(s); stores through an accessor are not followed)", n), "the limits in force are not the configured ones", uniq(bad, 2)...)
 	}
 
 	// ---- topup-bounded
